@@ -16,16 +16,19 @@ Starts == {{"pw"}, {"pw", "totp"}}
 \* totp_other_twocookies / botp_other_twocookies: ANOTHER user completes HIS factor with his own session cookie, and the
 \*     user's start cookie is sent in the same request under the same name, before it
 \* u2f_lost_token / webauthn_lost_token: the user's own hardware token that was DISABLED (lost) answers the sign-in challenge
+\* relogin_other_u2f_cookie: the user signs in afresh with her password, and the request carries the hardware-token session
+\*     of ANOTHER user; the session that comes back is presented: it is a password session, whatever `start` was
 Vias == {"none", "clisend_oldtoken", "totp_rolecert_other", "botp_rolecert_other", "totp_other_twocookies", "botp_other_twocookies",
-         "u2f_lost_token", "webauthn_lost_token"}
+         "u2f_lost_token", "webauthn_lost_token", "relogin_other_u2f_cookie"}
 WebUIs == {"pw", "u2f"}
 
 \* the web-UI level is met by the start session
 MeetsWebUI(f) == IF f.webui = "pw" THEN "pw" \in f.start ELSE "u2f" \in f.start
 \* what the user has really proven at the end of the flow
-Proven(f) == f.start \cup (IF f.via = "clisend_oldtoken" /\ MeetsWebUI(f) THEN {"cli"} ELSE {})
+Proven(f) == IF f.via = "relogin_other_u2f_cookie" THEN {"pw"}
+             ELSE f.start \cup (IF f.via = "clisend_oldtoken" /\ MeetsWebUI(f) THEN {"cli"} ELSE {})
 \* what the session PRESENTED at the end carries: the CLI exchange hands out a new session that names the CLI factor only
-Presented(f) == IF f.via = "clisend_oldtoken" /\ MeetsWebUI(f) THEN {"cli"} ELSE f.start
+Presented(f) == IF f.via = "relogin_other_u2f_cookie" THEN {"pw"} ELSE IF f.via = "clisend_oldtoken" /\ MeetsWebUI(f) THEN {"cli"} ELSE f.start
 EntitledBy(cfg, P) == {FactorOf[m] : m \in cfg} \cap P
 Entitled(cfg, P) == P # {} /\ ("u2f" \in P \/ EntitledBy(cfg, P) # {} \/ "password" \in cfg)
 
